@@ -332,3 +332,22 @@ package core
 //@
 //@ func (*socket).NewDialer
 //@   before call:SetOption#3 assert !has(options, mangos.OptionMaxRecvSize)
+
+// ---- round 11 ----
+// C19 "an accepted value takes effect ... is inherited by dialers and listeners": an accepted socket-level
+// value reaches every endpoint on every accepting path (loops 1 and 2 are `complete`, so reaching them is
+// visiting every dialer and every listener), whatever the socket's own current value is.
+//@ func (*socket).SetOption
+//@   ensures perr == mangos.ErrBadOption && isnil(result) ==> loop_reached(1) && loop_reached(2)
+//
+// C08/C13 "a pipe id is not handed out again while anything may still refer to it": releasing an id never
+// moves the allocation cursor back, so the id just released is the last one Get will come to.
+//@ func (*pipeIDAllocator).Free
+//@   before call:Unlock#1 assert unchanged("call:Lock#1", p.next)
+//
+// C14 "successive attempts are separated by at least the reconnect time": each dialer option writes its own
+// field; in particular a new maximum never shortens the delay already in use.
+//@ func (*dialer).SetOption
+//@   before call:Unlock#1 assert unchanged("call:Lock#1", d.reconnTime, d.reconnMaxTime, d.asynch)
+//@   before call:Unlock#2 assert unchanged("call:Lock#2", d.reconnTime, d.reconnMinTime, d.asynch)
+//@   before call:Unlock#3 assert unchanged("call:Lock#3", d.reconnTime, d.reconnMinTime, d.reconnMaxTime)
